@@ -10,7 +10,7 @@ export OMP_NUM_THREADS=1 MKL_NUM_THREADS=1 WANDB_MODE=disabled DS_ACCELERATOR=cp
 echo "== demo on unchanged tree (expect 0)"; (cd $WT && timeout 300 /venv/bin/python $SRC/demo.py > /tmp/val_${PID}_demo0.txt 2>&1); D0=$?; tail -2 /tmp/val_${PID}_demo0.txt
 echo "== apply patch"; git -C $WT apply $SRC/patch.diff || { echo "PATCH DOES NOT APPLY"; git -C /repo worktree remove --force $WT; exit 3; }
 echo "== demo on changed tree (expect 1)"; (cd $WT && timeout 300 /venv/bin/python $SRC/demo.py > /tmp/val_${PID}_demo1.txt 2>&1); D1=$?; tail -2 /tmp/val_${PID}_demo1.txt
-echo "== check $PID against changed tree"; VERIF_REPO=$WT VERIF_JOBS=${VERIF_JOBS:-10} ./check $PID --tier quick > /tmp/val_${PID}_check.txt 2>&1; C=$?
+echo "== check $PID against changed tree"; VERIF_REPO=$WT VERIF_JOBS=${VERIF_JOBS:-10} ./check $PID --tier quick --no-evidence > /tmp/val_${PID}_check.txt 2>&1; C=$?
 grep -E "signature=|tier=" /tmp/val_${PID}_check.txt | head -8
 rm -f replays/$PID/new-*.json
 echo "RESULT pid=$PID demo_unchanged=$D0 demo_changed=$D1 check_exit=$C"
